@@ -19,7 +19,7 @@ TEXT = ("Decides the four structural lemmas the implementation's convergence arg
         "the other two item classes, and the success of the verified read (no further selection). Relies on C05 (deterministic winner), "
         "C18 (no order taint), C19 (canonical identifiers), C10/C11 (verified, content-named items). L1b: every insertion into the revision map is post-dominated by an invalidation of the derived caches. Does not decide "
         "equality of the merged *values* over all histories and delivery orders."
-        " L1c: the inserting function returns without inserting only when that very revision is already recorded. L4c: a listed block is registered under per-item success / absence only. L5c: no successful return of meld bypasses one of its copy passes (the self-meld return excepted). L6: no read-path memo of a value that depends on the tree's current leaf set / winner unless the key carries that state whole.")
+        " L1c: the inserting function returns without inserting only when that very revision is already recorded. L4c: a listed block is registered under per-item success / absence from the block map only, and the listing loop runs over the whole listing (no positional or stop-at-first adaptor; filters are per-item guards). L5c: no successful return of meld bypasses one of its copy passes (the self-meld return excepted). L6: no read-path memo of a value that depends on the tree's current leaf set / winner unless the key carries that state whole.")
 TECHNIQUE = 'static analysis over rustc MIR: who-may-write on the revision map, post-dominance of re-validation through rayon closures, iteration-source typing, guard-literal whitelist on meld copies'
 TRUSTED = ["rustc nightly MIR", "HashMap keyed insert / BTreeSet order semantics", "C05, C18, C19, C10, C11"]
 
